@@ -3,6 +3,7 @@ package main
 import (
 	"fmt"
 	"go/ast"
+	"go/constant"
 	"go/token"
 	"go/types"
 	"strings"
@@ -258,6 +259,37 @@ func ruleC15Tail(p *Prog, r *Res) {
 			found := false
 			seen := map[*cfg.Block]bool{}
 			var dfs func(bb *cfg.Block, from int)
+			// a record whose id equals a constant marker (a tombstone written by an invalidation) is not a stream's
+			// record: the edge on which `<record>.StreamID == <constant>` holds may skip the store
+			sidFld := p.Field("converters", "converterStreamSection", "StreamID")
+			tombEdge := func(bb *cfg.Block, si int) bool {
+				if len(bb.Succs) != 2 || len(bb.Nodes) == 0 || sidFld == nil {
+					return false
+				}
+				cond, ok := bb.Nodes[len(bb.Nodes)-1].(ast.Expr)
+				if !ok {
+					return false
+				}
+				atoms, want := conjuncts(cond), token.EQL
+				if si == 1 {
+					atoms, want = disjuncts(cond), token.NEQ
+				}
+				for _, a := range atoms {
+					be, ok := ast.Unparen(a).(*ast.BinaryExpr)
+					if !ok || be.Op != want {
+						continue
+					}
+					x, y := be.X, be.Y
+					if tv, isC := info.Types[x]; isC && tv.Value != nil {
+						x, y = y, x
+					}
+					tv, isC := info.Types[y]
+					if se, isSel := ast.Unparen(x).(*ast.SelectorExpr); isSel && isC && tv.Value != nil && info.Uses[se.Sel] == types.Object(sidFld) {
+						return true
+					}
+				}
+				return false
+			}
 			dfs = func(bb *cfg.Block, from int) {
 				if found {
 					return
@@ -267,7 +299,10 @@ func ruleC15Tail(p *Prog, r *Res) {
 						return
 					}
 				}
-				for _, s := range bb.Succs {
+				for si, s := range bb.Succs {
+					if tombEdge(bb, si) {
+						continue
+					}
 					if s == hdrNode {
 						found = true
 						return
@@ -705,6 +740,37 @@ func ruleC15IndexFile(p *Prog, r *Res) {
 					mutatesFile = true // binary.Write(cachefile.file, …)
 				}
 			}
+		}
+		// a marker written over the record's id (tombstone) must be the constant the load scan tests for
+		var marker constant.Value
+		for _, c := range callsIn(f.Body()) {
+			if fn := p.Callee(f.Pkg, c); fn != nil && strings.HasPrefix(fn.Name(), "PutUint") && len(c.Args) == 2 {
+				if tv, ok := info.Types[c.Args[1]]; ok && tv.Value != nil {
+					marker = tv.Value
+				}
+			}
+		}
+		if marker != nil {
+			sidFld := p.Field("converters", "converterStreamSection", "StreamID")
+			recognised := false
+			if ctor := p.Fn("converters.NewCacheFile"); ctor != nil && sidFld != nil {
+				cinfo := ctor.Pkg.TypesInfo
+				ast.Inspect(ctor.Body(), func(x ast.Node) bool {
+					if be, ok := x.(*ast.BinaryExpr); ok && (be.Op == token.EQL || be.Op == token.NEQ) {
+						xx, yy := be.X, be.Y
+						if tv, isC := cinfo.Types[xx]; isC && tv.Value != nil {
+							xx, yy = yy, xx
+						}
+						if se, isSel := ast.Unparen(xx).(*ast.SelectorExpr); isSel && cinfo.Uses[se.Sel] == types.Object(sidFld) {
+							if tv, isC := cinfo.Types[yy]; isC && tv.Value != nil && constant.Compare(constant.ToInt(tv.Value), token.EQL, constant.ToInt(marker)) {
+								recognised = true
+							}
+						}
+					}
+					return true
+				})
+			}
+			r.Check(recognised, rule, f.Key()+" tombstone marker is recognised by the load scan", p.Pos(f.Node()), "NewCacheFile compares the record id with the same constant "+marker.ExactString(), "the marker "+marker.ExactString()+" written over invalidated records is not tested for in NewCacheFile's scan: such records are indexed under that id and their space is not reclaimed")
 		}
 		key := f.Key() + " removes entries from streamInfos"
 		r.Check(mutatesFile, rule, key, p.Pos(f.Node()), "the same function also rewrites/truncates the file", "entries are removed from the in-memory index only: the records stay in the append-only file and are indexed again at the next open, so invalidated converter output is served again after a restart")
